@@ -131,7 +131,6 @@ pub fn run(ctx: &Ctx) -> ! {
     all_found.extend(ac_found);
     rep.merge(a.rep);
     rep.merge(ac);
-    rep.extra("observation_genesis_key_field_not_covered_by_genesis_signature", observe_unauthenticated_genesis_key_field(&w));
     rep.extra("A_pool_members_sound_on_their_own", json!(a.facts.iter().filter(|f| f.ok()).count()));
     rep.extra("A_pool_members_with_valid_chain", json!(chain_defect.iter().filter(|d| d.is_none()).count()));
 
@@ -192,58 +191,8 @@ pub fn run(ctx: &Ctx) -> ! {
     rep.assume("the universe is a finite pool: chains of at most 5 epochs, one adversarial key set, Concatenation proofs only (feature future_snark off)");
     rep.assume("seam A answers: all pool members claiming the requested hash, all base certificates and 'not found' for every row; the full pool for base rows (and, thorough, for re-targeted rows)");
     rep.assume("seam B cache states are re-created through the public store_validated_certificate API instead of replaying the history; every reported violation is re-run through its whole history from an empty cache");
-    rep.assume("the property text is applied literally: a genesis certificate's own aggregate-key and parameter fields are not covered by the genesis signature and are not judged");
+    rep.assume("a genesis certificate's own aggregate-key / parameter fields are not covered by the genesis signature: a same-epoch link to a genesis certificate is judged by the commitment in its signed protocol message alone (weaker than the text when the unsigned fields differ but the signed commitment matches; accepted with equal fields but another commitment is the finding genesis-epoch-certificate-anchored-only-in-unsigned-genesis-fields)");
     rep.finish(ctx)
-}
-
-/// Observation (NOT judged: the property's text admits it). A genesis certificate's own
-/// aggregate-key / parameter fields are not covered by the genesis signature; a same-epoch link only
-/// compares those fields. So a copy of the honest genesis certificate with the adversary's key put in
-/// that field (hash recomputed, genesis signature untouched) anchors an adversarial certificate of the
-/// genesis epoch, and through it a whole adversarial chain.
-fn observe_unauthenticated_genesis_key_field(w: &World) -> serde_json::Value {
-    use crate::pool::{Party, protocol_message, rehash, standard_certificate};
-    use mithril_common::certificate_chain::{CertificateVerifier, MithrilCertificateVerifier};
-    let params = crate::pool::base_params();
-    let p1 = Party::from_seed("obs-e1", 3, &params, 0xE1);
-    let p2 = Party::from_seed("obs-e2", 3, &params, 0xE2);
-    let p3 = Party::from_seed("obs-e3", 3, &params, 0xE3);
-    let honest_genesis = w.chain("H2").certs[0].clone();
-    let mut g = honest_genesis.clone();
-    g.aggregate_verification_key = p1.avk_concat();
-    g.metadata.protocol_parameters = p1.params.clone();
-    let g = rehash(g);
-    let e = g.epoch.0;
-    let c1 = standard_certificate(
-        &p1,
-        e,
-        protocol_message(Some(&p2.avk_hex()), Some(&p2.params.compute_hash()), Some(&e.to_string()), Some("obs-1")),
-        &g.hash,
-        1,
-    );
-    let c2 = standard_certificate(
-        &p2,
-        e + 1,
-        protocol_message(Some(&p3.avk_hex()), Some(&p3.params.compute_hash()), Some(&(e + 1).to_string()), Some("obs-2")),
-        &c1.hash,
-        2,
-    );
-    let mut table = std::collections::BTreeMap::new();
-    for c in [&g, &c1, &c2] {
-        table.insert(c.hash.clone(), c.clone());
-    }
-    let verifier = MithrilCertificateVerifier::new(
-        seam_a::logger(),
-        std::sync::Arc::new(seam_a::TableRetriever { table }),
-        std::sync::Arc::new(w.genesis_verifier.clone()),
-    );
-    let r = mc_core::catch(|| seam_a::block_on(verifier.verify_certificate_chain(c2.clone())));
-    let accepted = matches!(r, Ok(Ok(())));
-    json!({
-        "what": "adversary-signed certificates (own keys) chained, in the genesis epoch, to a copy of the honest genesis certificate whose aggregate_verification_key field was replaced by the adversary's key (hash recomputed, genesis signature untouched)",
-        "accepted_by_verify_certificate_chain": accepted,
-        "judged": "no - the property's wording admits this chain (valid genesis signature; same-epoch link with the same key and parameters), so it is reported as an observation only",
-    })
 }
 
 fn cpu_s() -> f64 {
